@@ -104,6 +104,17 @@ class UDerivedMid(Expression):
 
 
 @expr_dataclass()
+class UShift(Expression):
+    """__post_init__ translates a constructor argument (it is not idempotent): the offset is
+    stored relative to an origin of 2"""
+    child: object
+    offset: int
+
+    def __post_init__(self):
+        object.__setattr__(self, "offset", self.offset + 2)
+
+
+@expr_dataclass()
 class UCse(CommonSubexpression):
     """decorated subclass of the wrapper node with a field of its own; no mapper has
     map_u_cse, dispatch falls back to the wrapper's handler"""
@@ -180,13 +191,13 @@ class PureLegacy(Expression):
 USER_CLASSES = {"UTag": UTag, "UTag3": UTag3, "UNamed": UNamed, "UHashless": UHashless,
                 "UDerived": UDerived, "SubVariable": SubVariable, "SubCall": SubCall,
                 "UHashInherit": UHashInherit, "UInterval": UInterval,
-                "UDerivedMid": UDerivedMid, "UCse": UCse, "SubCse": SubCse,
+                "UDerivedMid": UDerivedMid, "UCse": UCse, "SubCse": SubCse, "UShift": UShift,
                 "LegacyVar": LegacyVar,
                 "LegacyVarX": LegacyVarX, "LegacyVarX2": LegacyVarX2, "PureLegacy": PureLegacy}
 USER_FIELDS = {"UTag": ["e", "s"], "UTag3": ["e", "s", "any"], "UNamed": ["s", "ci"],
                "UHashless": ["s", "any"], "UDerived": ["e"], "SubVariable": ["s"],
                "SubCall": ["e", "E0"], "UHashInherit": ["s", "s"],
                "UInterval": ["e", "any"], "UDerivedMid": ["e", "any"],
-               "UCse": ["e", "px", "sc", "s"], "SubCse": ["e", "px", "sc"],
+               "UCse": ["e", "px", "sc", "s"], "SubCse": ["e", "px", "sc"], "UShift": ["e", "ci"],
                "LegacyVar": ["s"], "LegacyVarX": ["s", "any"], "LegacyVarX2": ["s", "any"],
                "PureLegacy": ["any", "any"]}
